@@ -25,7 +25,7 @@ BOUNDS = {
 }
 ASSUMPTIONS = ['each label text is defined at most once per document (DESIGN.md section 3, C09): labels L0 and L1 differ after stripping; references are free to coincide with any label or none',
                '"resolves to no object" = the idref entry is absent or a placeholder that is not a node of the document']
-OUTSIDE = ['bibliography keys (\\bibitem/\\cite)', 'labels in floats/theorems/items (only sections and equations carry labels in the skeletons)']
+OUTSIDE = ['bibliography keys (\\bibitem/\\cite)', 'symbolic label texts on floats/theorems/items (those use concrete names with every before/after placement of the references)']
 BUDGET_S = {'quick': 900, 'thorough': 3300}
 
 ITEMS = ['O', 'E', 'L0', 'L1', 'R0', 'R1', 'R2', 'P0']
@@ -233,6 +233,55 @@ def h_eqn(e):
     e.nontriv()
 
 
+OBJ_LABELS = [('s', 'section', '1'), ('i1', 'item', '1'), ('i2', 'item', '2'), ('f', 'caption', '1'), ('t', 'thmenv', '1'), ('e', 'equation', '1'), ('s2', 'subsection', '1.1')]
+
+
+def h_objects(e):
+    """labels on a section, list items, a figure caption, a theorem, an equation and a subsection; every reference placed before or after its target (symbolic choice)"""
+    doc = TeXDocument()
+    before = [e.bool('before_%s' % n) for n, _, _ in OBJ_LABELS]
+    pre = ''.join('\\ref{%s}' % n for (n, _, _), b in zip(OBJ_LABELS, before) if b)
+    post = ''.join('\\ref{%s}' % n for (n, _, _), b in zip(OBJ_LABELS, before) if not b)
+    src = ('\\documentclass{article}\\newtheorem{thm}{Theorem}\\begin{document}' + pre +
+           '\\section{A}\\label{s}x\\begin{enumerate}\\item a\\label{i1}\\item b\\label{i2}\\end{enumerate}'
+           '\\begin{figure}\\caption{C}\\label{f}\\end{figure}\\begin{thm}t\\label{t}\\end{thm}\\begin{equation}q\\label{e}\\end{equation}'
+           '\\subsection{B}\\label{s2}y ' + post + '\\end{document}')
+    tex = TeX(doc)
+    tex.input(Src(list(src)))
+    try:
+        out = tex.parse()
+    except (KeyError, ValueError, TypeError, IndexError, AttributeError) as ex:
+        e.fail_exception(ex)
+        return
+    refs, allnodes = {}, set()
+
+    def walk(n):
+        for c in n.childNodes:
+            if getattr(c, 'nodeType', None) == 1:
+                allnodes.add(id(c))
+                if c.nodeName == 'ref':
+                    refs[str(c.attributes['label'])] = c
+                walk(c)
+    walk(out)
+    for name, kind, number in OBJ_LABELS:
+        r = refs.get(name)
+        e.check(r is not None, 'reference to %s not found in the tree' % name, 'structure')
+        if r is None:
+            continue
+        t = r.idref.get('label')
+        e.check(t is not None and id(t) in allnodes, 'reference to the label on a %s does not resolve to a node of the document' % kind, 'wrong-target:' + kind)
+        if t is None or id(t) not in allnodes:
+            continue
+        e.check(t.nodeName == kind, 'label written in a %s is attached to a <%s>' % (kind, t.nodeName), 'wrong-target:' + kind)
+        num = getattr(t, 'ref', None)
+        e.check(num is not None and str(num.textContent) == number, 'reference to the %s shows number %r, the object\'s number is %s' % (kind, None if num is None else str(num.textContent), number),
+                'wrong-number:' + kind)
+        e.check(t.id == name, 'identifier of the labelled %s is %r' % (kind, t.id), 'object-id')
+    ids = [refs[n].idref['label'].id for n, _, _ in OBJ_LABELS if n in refs and refs[n].idref.get('label') is not None]
+    e.check(len(ids) == len(set(ids)), 'distinct labels give the same identifier', 'object-id')
+    e.nontriv()
+
+
 def _any(xs):
     r = False
     for x in xs:
@@ -270,6 +319,7 @@ def jobs(tier, seed):
     J.append(dict(harness='h_refs', params=dict(fam='special', lo=0, hi=6), label='long histories'))
     J.append(dict(harness='h_refs', params=dict(fam='special', lo=6, hi=len(SPECIAL)), label='label in title histories'))
     J.append(dict(harness='h_eqn', params={}, label='eqnarray rows'))
+    J.append(dict(harness='h_objects', params={}, label='labels on items/figure/theorem/equation'))
     if not q:
         J.append(dict(harness='h_refs', params=dict(fam='special', lo=0, hi=len(SPECIAL), nch=3), label='long histories 3-char labels'))
     return J
